@@ -87,6 +87,10 @@ names = [
  ('gen_addnogrow_loop', "the same, loop against loop: generated pvAddNogrow loop = the hand model's add_loop from any intermediate probe."),
  ('gen_reloc_inner', "T-gen, loop skeleton of HashSet::pvRelocateItems(Buckets ptr) -- generated; GetHashCodePart and Remove-with-replacer -- whose replacer is the pvAddNogrow into the newest table -- are parameters = the item move as a primitive: the inner loop over a bucket with c items performs exactly c moves, on the items end-1, end-2, ..., end-c (last to first, the order of the hand model's reloc_items), given that Remove of the last item hands the iterator back."),
  ('gen_reloc_outer', "... and the outer loop handles every bucket 0 .. bucketCount-1 exactly once in ascending order (the order of the hand model's reloc_buckets) and ends at bucketCount.  The EFFECTS of a move, the exception paths (failure swallowed, generations stay linked) and the recursion over older generations remain hand-modelled (GrowModel.reloc) and are tied by T-cor."),
+ ('gen_find_walk', """T-gen tie of the lookup's generation walk.  The `while (true)` loop of HashSet::pvFind(key) (one-table lookup, `if (found || areItemsNothrowRelocatable) break; buckets = buckets->GetNextBuckets(); if (buckets == nullptr) break;`) is regenerated from HashSet.h on every run (Gen_HashSetFind.v; table arrays are handles, the one-table pvFind and GetNextBuckets are parameters).  Run on a chain of model tables (generation j = handle j+1, nullptr = 0, the one-table lookup answering non-null exactly where the model's tfind finds the key) the GENERATED walk returns the iterator of the generation that the hand model's gfind answers with, and the null iterator exactly when gfind finds nothing -- including the shortcut that only the newest table is searched when items are nothrow-relocatable.  all_findable / history_refines_set therefore talk about the generated control flow.  (The update of indexCode through the reference parameter of the one-table pvFind is not modelled.)"""),
+ ('gen_find_buckets_loop', "T-gen tie of pvFindBuckets' loop (generated: `for (bkts = mBuckets; bkts != nullptr; bkts = bkts->GetNextBuckets())`, `if (bucketIndex >= bkts->GetCount()) continue;`, the std::less address-range test on GetBounds of bucket bucketIndex): with item addresses owner * M + pos (disjoint storage per generation, M above every bucket length) it computes the hand model's find_buckets_loop (same generation or MOMO_ASSERT(false))."),
+ ('gen_find_buckets_is_model', "... and the whole generated pvFindBuckets (single-table shortcut, the loop with the translator's 70 units of fuel for chains shorter than 70 tables, final MOMO_ASSERT(false) = Stuck) = the hand model's find_buckets, on which C11_find_buckets_returns_owner / C11_removable / C11_remove_if_any_state rest."),
+ ('reloc_structure_is_source', """AST facts (props/C11/astfacts.py, regenerated from the clang AST on every run; the statements as canonical strings in Gen_RelocFacts.v) for the parts of the migration that are not translated: pvRelocateItems() is `decl; try { pvRelocateItems(nextBuckets); mBuckets->ExtractNextBuckets(); } catch (...) { }` with an EMPTY handler and nothing after it (the failure is swallowed; the older chain is unlinked only on success); pvRelocateItems(Buckets ptr) first recurses into the next (older) table under `next != nullptr` and unlinks it only after that call returned, then runs the one loop that Gen_HashSetMove translates, then destroys the emptied table as its last statement, and contains no try of its own.  These are the structural facts GrowModel.reloc_gens / relocate are written for (oldest generation first; the first failure stops everything and leaves every table on the path linked)."""),
  ('limp4_same_code_3_is_4', "same-code: BucketLimP4<.., 3, .., true> translated with maxCount symbolic gives literally the same Gallina as BucketLimP4<.., 4, .., true> for pvGetCount, IsFull, pvGetMemPoolIndex, WasFull, pvSetPtrState, pvSetEmpty, Clear, Remove (AddCrt differs per maxCount and is not claimed)."),
  ('limp4_same_code_2_is_4', "... BucketLimP4<2>."),
  ('limp4_same_code_1_is_4', "... BucketLimP4<1>."),
@@ -105,7 +109,7 @@ names = [
  ('ex_refused_until_full', "non-vacuity: with every growth refused a 2-bucket Open2N2<3> table accepts insertions up to 6 items through the fallback path, then reports full."),
 ]
 hdr = '''From Coq Require Import ZArith List Bool Permutation.
-From C11 Require Import GrowModel GenTie GenGrow GenFull GenFullP4 GenMove GenSame.
+From C11 Require Import GrowModel GenTie GenGrow GenFull GenFullP4 GenMove GenSame GenFacts GenFind.
 Import ListNotations.
 Local Open Scope Z_scope.
 Set Printing Width 130.
@@ -124,7 +128,7 @@ res = '''(* Property C11 -- theorems only.  Each is closed by `exact <lemma>` an
    UpdateMaxProbe never under-approximates, the growth policy does not shrink / probing reaches every bucket,
    CalcCapacity <= physical size); they are proved below for the kinds used by the extracted model. *)
 From Coq Require Import ZArith List Bool Permutation.
-From C11 Require Import GrowModel GenTie GenGrow GenFull GenFullP4 GenMove GenSame.
+From C11 Require Import GrowModel GenTie GenGrow GenFull GenFullP4 GenMove GenSame GenFacts GenFind.
 Import ListNotations.
 Local Open Scope Z_scope.
 
